@@ -118,6 +118,11 @@ def Sched.fire (sc : Sched) (e : Event Nat) : Sched :=
   | some (s', _) => { sc with st := s' }
   | none => sc
 
+/-- the hypothesis `cleanState` of `C02_commit_refines_replay_partial`, decided on a model state -/
+def cleanStateB (s : WState Nat) : Bool :=
+  s.log.isEmpty && s.channel.isEmpty && s.inflight.isEmpty && s.uncommitted.isEmpty
+    && s.workers.all (fun w => w.seg.isNone)
+
 def busyWorkers (s : WState Nat) : List Nat :=
   (List.range s.workers.length).filter (fun w => match s.workers[w]? with
     | some wk => wk.seg.isSome | none => false)
@@ -198,6 +203,8 @@ def implRun (sc : Sched) : List (Op Nat × Option Nat) → Nat → List Nat → 
     match sc? with
     | none => .error s!"mismatch:{i}:model-stamper={sc.st.stamper}"
     | some sc =>
+      -- the state-level hypothesis of the theorem, where the history-level rule says it holds
+      if (match op with | .deleteAll => !cleanStateB sc.st | _ => false) then .error s!"hyp-violated:{i}" else
       match step sc.st (opToEvent op) with
       | none => .error s!"disabled:{i}"
       | some (s', ret) => implRun { sc with st := s' } rest (i + 1) (ret :: rets)
